@@ -59,8 +59,36 @@ long addr_of(const std::byte* p) { return p == nullptr ? 0 : (p - buffer) + 1000
 
 }  // namespace
 
-int main() {
+template <class T>
+bool span_ok(std::size_t off, std::size_t n) {
+  // same elements and size as the source span through copies / moves / assignments, for element type T
+  std::span<T> sp(reinterpret_cast<T*>(buffer + off), n);
+  unodb::qsbr_ptr_span<T> w(sp);
+  auto w2 = w;
+  auto w3 = std::move(w2);
+  unodb::qsbr_ptr_span<T> w4;
+  w4 = w3;
+  bool ok = w4.size() == sp.size() && w4.begin().get() == sp.data() && w4.end().get() == sp.data() + sp.size() &&
+            static_cast<std::size_t>(w4.end() - w4.begin()) == sp.size();
+  std::size_t k = 0;
+  for (auto it = w4.begin(); it != w4.end() && k <= n; ++it, ++k) ok = ok && *it == sp[k];
+  return ok && k == sp.size();
+}
+
+int main(int argc, char** argv) {
   for (std::size_t i = 0; i < sizeof buffer; ++i) buffer[i] = static_cast<std::byte>(i * 7 + 3);
+#ifndef NDEBUG
+  // "multi": a second registered thread that never quiesces keeps the epoch from advancing, and this thread has
+  // already announced a quiescent state in it: every probe below is a further quiescent state of the same epoch
+  std::unique_ptr<unodb::qsbr_per_thread> other;
+  if (argc > 1 && std::string(argv[1]) == "multi") {
+    other = std::make_unique<unodb::qsbr_per_thread>();
+    unodb::this_thread().quiescent();
+  }
+#else
+  (void)argc;
+  (void)argv;
+#endif
   std::map<int, std::unique_ptr<W>> objs;
   std::map<int, std::byte*> shadow;  // the raw pointers
   std::string line;
@@ -165,19 +193,17 @@ int main() {
     out += extra;
     std::puts(out.c_str());
   }
-  // span wrapper: same elements and size through copies / moves / assignments
+  // span wrapper: same elements and size through copies / moves / assignments, for 1-, 2- and 8-byte elements
   {
-    std::span<std::byte> sp(buffer + 100, 37);
-    unodb::qsbr_ptr_span<std::byte> w(sp);
-    auto w2 = w;
-    auto w3 = std::move(w2);
-    unodb::qsbr_ptr_span<std::byte> w4;
-    w4 = w3;
-    bool ok = w4.size() == sp.size() && w4.begin().get() == sp.data() && w4.end().get() == sp.data() + sp.size();
-    std::size_t k = 0;
-    for (auto it = w4.begin(); it != w4.end(); ++it, ++k) ok = ok && *it == sp[k];
-    std::printf("SPAN %s\n", ok && k == sp.size() ? "ok" : "BAD");
+    const bool ok = span_ok<std::byte>(100, 37) && span_ok<std::uint16_t>(128, 5) && span_ok<std::uint64_t>(256, 3) &&
+                    span_ok<const std::uint64_t>(512, 4);
+    std::printf("SPAN %s\n", ok ? "ok" : "BAD");
   }
   objs.clear();
+#ifndef NDEBUG
+  if (other) {
+    other->qsbr_pause();
+  }
+#endif
   return 0;
 }
